@@ -87,7 +87,7 @@ def match(exp, obs, step, rec, prev):
                 return "%s: paths %s: expected %s, observed %s" % (k, diff[:6], json.dumps([exp[k][i] for i in diff[:6]]),
                                                                    json.dumps([obs[k][i] for i in diff[:6]]))
             return "%s: expected %s, observed %s" % (k, json.dumps(exp[k]), json.dumps(obs[k]))
-    if exp.get("ret") != "any" and obs.get("ret") != exp.get("ret"):
+    if not exp.get("anyret") and obs.get("ret") != exp.get("ret"):
         return "ret: expected %s, observed %s" % (json.dumps(exp.get("ret")), json.dumps(obs.get("ret")))
     return None
 
@@ -174,12 +174,184 @@ def binding_a(ck, exes, gencfg, impl, nt, samples):
             if persig[sig] <= 3:
                 ck.violation(sig, {"binding": "A(replay)", "impl": impl, "behaviour": rootb[mm["b"]], "step": mm["i"],
                                    "why": mm["why"], "record": mm["rec"]})
-    if total != gen.generated - 1:
+    # (transitions into states beyond the bound are generated but not exported)
+    if not (gen.distinct - 1 <= total <= gen.generated - 1):
         raise vlib.MachineryError("behaviour export incomplete: %d lines for %d transitions" % (total, gen.generated - 1))
     ck.cov["evaluations"] += total
     ck.notes.setdefault("replay", []).append({"cfg": gencfg, "impl": label, "behaviours": total, "mismatches": nmm,
                                               "mismatches_without_failed_prefix": roots, "signatures": persig,
                                               "tlc_wall_s": round(gen.wall, 1)})
+
+
+# ---------------------------------------------------------------------------
+# binding B: histories at production-like sizes, recorded and validated by TLC
+ELEMLENS = [0, 0, 1, 1, 2, 3, 7, 19, 20, 21, 60, 200, 254, 255, 256, 257, 300]
+VALLENS = [0, 0, 1, 2, 5, 40, 100, 200, 248, 249]
+LONGVALS = [250, 251, 254, 255, 256, 300, 400]
+BASE = [[118], [119, 119]]           # "v", "ww": Base of Trace_Config_view.cfg
+
+
+def bjoin(elems, sep):
+    out = []
+    for i, e in enumerate(elems):
+        if i:
+            out.append(sep)
+        out += e
+    return out
+
+
+def mkname(rng, ln, sep):
+    """name of ln bytes without the separator (other separator characters may occur); long names share a prefix"""
+    chars = [c for c in (97, 98, 99, 46, 47, 58, 61, 0x20, 0xc3) if c != sep]
+    if ln <= 3:
+        return [rng.choice(chars) for _ in range(ln)]
+    return [97] * (ln - 1) + [rng.choice([97, 98])]
+
+
+def mkval(rng, ln):
+    return [rng.choice([120, 121, 0x20, 0x3d, 0xe4, 1, 255]) for _ in range(ln)]
+
+
+def gen_store_history(rng, mode, steps, longvals):
+    sep = rng.choice([46, 46, 47, 58])
+    names = [mkname(rng, rng.choice(ELEMLENS), sep) for _ in range(4)] + [[97], []]
+    view = mode == "view"
+    paths = []
+    for _ in range(9):
+        d = rng.choice([1, 1, 2, 2, 3, 4])
+        p = [rng.choice(names) for _ in range(d)]
+        paths.append(p)
+        if rng.random() < 0.5:
+            paths.append(p[:rng.randrange(1, d + 1)])           # a prefix of another path
+    if view:
+        paths += [BASE, BASE[:1], BASE + [rng.choice(names)], BASE + [[97]], BASE + [[97], rng.choice(names)]]
+    rels = [p for p in paths if p[:len(BASE)] != BASE][:8] if view else []
+    uni = [bjoin(p, sep) for p in paths]
+    rel = [[0]] + [bjoin(p, sep) for p in rels]
+    hist = [{"a": "init", "arg": {"base": bjoin(BASE, sep) if view else [], "sep": sep, "uni": uni,
+                                  "rel": rel if view else []}}]
+    lens = VALLENS + (LONGVALS if longvals else [])
+    for _ in range(steps):
+        via = "view" if view and rng.random() < 0.5 else "top"
+        pool = rels if via == "view" else paths
+        p = bjoin(rng.choice(pool), sep)
+        r = rng.random()
+        if r < 0.55:
+            hist.append({"a": "assign", "arg": {"via": via, "path": p, "sep": sep, "val": mkval(rng, rng.choice(lens))}})
+        elif r < 0.78:
+            hist.append({"a": "remove", "arg": {"via": via, "path": p, "sep": sep}})
+        elif r < 0.9:
+            hist.append({"a": "query", "arg": {"via": via, "path": p, "sep": sep}})
+        elif r < 0.93:
+            hist.append({"a": "clearall", "arg": {"x": 0}})
+        elif view and r < 0.97:
+            hist.append({"a": "assignself", "arg": {"val": mkval(rng, rng.choice(lens))}})
+        elif view:
+            hist.append({"a": "clearbelow", "arg": {"x": 0}})
+        else:
+            hist.append({"a": "query", "arg": {"via": via, "path": p, "sep": sep}})
+    return hist
+
+
+def gen_path_history(rng, steps):
+    sep = rng.choice([46, 47, 58])
+    hist = [{"a": "init", "arg": {"base": [], "sep": sep, "uni": [], "rel": []}}]
+
+    def elem():
+        return mkname(rng, rng.choice(ELEMLENS), sep)
+    for _ in range(steps):
+        r = rng.random()
+        if r < 0.25:
+            asg = rng.choice([0, 0, 61])
+            s = bjoin([elem() for _ in range(rng.choice([1, 2, 3, 5]))], sep)
+            if asg and rng.random() < 0.6:
+                s = s + [61] + mkval(rng, 3)
+            if asg:
+                s = [c if c != 61 or i >= len(s) - 4 else 99 for i, c in enumerate(s)]
+            hist.append({"a": "pset", "arg": {"str": [c for c in s if c != 0], "sep": sep, "asg": asg}})
+        elif r < 0.45:
+            hist.append({"a": "pnext", "arg": {"x": 0}})
+        elif r < 0.55:
+            hist.append({"a": "plast", "arg": {"x": 0}})
+        elif r < 0.7:
+            hist.append({"a": "pdel", "arg": {"x": 0}})
+        else:
+            hist.append({"a": "paddelem", "arg": {"elem": [c for c in elem() if c not in (0, 61)]}})
+    return hist
+
+
+def long_values_work(exes, label):
+    """probe for the known finding value_len>=250: only where it still reproduces do the histories avoid long values"""
+    view = label == "view"
+    beh = [{"a": "init", "arg": {"base": bjoin(BASE, 46) if view else [], "sep": 46, "uni": [bjoin(BASE + [[97]], 46) if view else [97]],
+                                 "rel": [[0], [97]] if view else []}},
+           {"a": "assign", "arg": {"via": "view" if view else "top", "path": [97], "sep": 46, "val": [120] * 300}}]
+    recs, _ = vlib.run_driver(exes["cxx" if label == "cxx" else "c"], script([beh], quiet_prefix=False))
+    return len(recs) == 2 and (recs[1].get("obs") or {}).get("all") == [[120] * 300], beh
+
+
+def trace_signature(ev, label):
+    if ev is None:
+        return "trace:%s:short" % label
+    if ev["a"] in ("Crash", "Hang", "Garbled", "Missing"):
+        return "trace:%s:%s" % (label, ev["a"].lower())
+    return "trace:%s:%s:rejected:%s" % (label, ev["a"], arg_class(ev))
+
+
+def nontrivial_b(hist):
+    acts = [s["a"] for s in hist]
+    if "pset" in acts:
+        return any(len(s["arg"].get("str", [])) > 255 for s in hist if s["a"] == "pset") and \
+            len([a for a in acts if a in ("pnext", "plast", "pdel", "paddelem")]) >= 5
+    paths = [tuple(s["arg"]["path"]) for s in hist if s["a"] == "assign"]
+    return len(paths) > len(set(paths)) >= 3 and "remove" in acts
+
+
+def binding_b(ck, exes, n, steps, nt):
+    rng = ck.rng
+    groups = {"global": ("c", "Trace_Config.cfg", []), "view": ("c", "Trace_Config_view.cfg", []),
+              "cxx": ("cxx", "Trace_Config_items.cfg", [])}
+    ok_long = {}
+    for label in groups:
+        ok_long[label], probe = long_values_work(exes, label)
+        if not ok_long[label]:
+            ck.violation(trace_signature(probe[1], label),
+                         {"binding": "B(probe)", "impl": groups[label][0], "trace_cfg": groups[label][1], "behaviour": probe,
+                          "why": "a 300 byte value is not stored"})
+    for i in range(n):
+        mode = ("global", "view", "cxx")[i % 3]
+        groups[mode][2].append(gen_store_history(rng, mode, steps, ok_long[mode]))
+    for i in range(max(3, n // 3)):
+        groups["global"][2].append(gen_path_history(rng, steps))
+    total = okn = 0
+    info = {}
+    for label, (impl, tcfg, hists) in groups.items():
+        recs, _ = vlib.run_driver(exes[impl], script(hists, quiet_prefix=False))
+        events = vlib.merge_trace(hists, recs)
+        ok, matched, tres = vlib.validate_trace("Trace_Config", events, cfg=tcfg, tag="Trace_Config-" + label, xss="1g")
+        ck.cov["transitions"] += tres.generated
+        if not ok:
+            ok2, matched2, _ = vlib.validate_trace("Trace_Config", events, cfg=tcfg, tag="Trace_Config-" + label, xss="1g")
+            if not ok2 and matched2 == matched:
+                ev = events[matched] if matched < len(events) else None
+                beh = hists[ev["b"]][:ev["i"] + 1] if ev else None
+                ck.violation(trace_signature(ev, label),
+                             {"binding": "B(trace validation)", "impl": impl, "trace_cfg": tcfg, "matched_prefix": matched,
+                              "rejected_event": ev, "behaviour": beh, "tlc_tail": tres.out[-1500:]})
+            else:
+                ok = ok2
+        for h in hists:
+            if nontrivial_b(h):
+                nt.add(label + common.callkey(h))
+        total += len(hists)
+        okn += len(hists) if ok else 0
+        info[label] = {"histories": len(hists), "events": len(events), "events_matched": matched,
+                       "tlc_wall_s": round(tres.wall, 1)}
+    ck.cov["traces_validated_against_impl"] = okn
+    ck.cov["evaluations"] += total
+    ck.notes["trace"] = info
+    ck.notes["long_values_exercised"] = ok_long
+    return groups["view"][2][0][:8]
 
 
 def run(tier):
@@ -188,11 +360,14 @@ def run(tier):
     exes = build()
     mcres = []
 
+    # 1. the slot design (Tier 2) implements the map (Tier 1); the struct path stands for Split; beside the replay
     def model_check():
         for mc in cfg["mc"]:
             mcres.append((mc, vlib.tlc("MC_Config", mc, tag="MC_Config-" + mc, deque=True, workers=max(2, vlib.NCPU // 2))))
     th = threading.Thread(target=model_check)
     th.start()
+
+    # 2. binding A: every transition replayed into the three stores and the path object
     nt = set()
     samples = []
     try:
@@ -204,9 +379,29 @@ def run(tier):
         raise vlib.MachineryError("model checking run did not finish")
     for mc, res in mcres:
         ck.add_tlc(res, "exhaustive " + mc)
+
+    # 3. binding B: recorded histories validated by TLC
+    sample_b = binding_b(ck, exes, cfg["nhist"], cfg["steps"], nt)
     ck.cov["distinct_nontrivial"] = len(nt)
     ck.cov["exhaustive"] = True
-    ck.cov["samples"] = samples
+    ck.cov["samples"] = samples + [{"impl": "view (recorded history)", "calls": sample_b}]
+    ck.cov["rule"] = ("A: one behaviour per transition of the TLC state graph of Config (store: names a, b, empty [+ab], "
+                      "depth 2 [3 below the view], at most 3 [4] elements, every assign/remove/query of every path of the "
+                      "universe; path object: every string over {a . =} of length <= 3 [4] with end character 0 or '=', "
+                      "then next/last/del/add), replayed into the process-wide configuration, a sub-tree view, mpt++ "
+                      "config::root and struct path, all paths of the universe queried after every call; B: seeded "
+                      "histories (names of 0..300 bytes, separators . / :, values of 0..400 bytes, shared prefixes, "
+                      "prefix paths, repeated and empty elements) recorded from the real code and validated by TLC.  "
+                      "Non-trivial (A store) = at least two assignments to different paths and an overwrite or removal; "
+                      "(A path) = the object was changed at least twice; (B store) = an overwrite among >= 3 assigned "
+                      "paths and a removal; (B path) = a string longer than 255 bytes was set and >= 5 element operations "
+                      "followed; distinct by implementation and call sequence.")
+    ck.assumptions = ["TLC/SANY and the CommunityModules Json/IOUtils are correct",
+                      "drv/config.c, drv/config_cxx.cpp project without judgement (set/get calls, copy of the returned text)",
+                      "config_global.c is compiled into the C driver unchanged so that each behaviour starts from an empty "
+                      "process-wide configuration (nodeGlobal reset by the driver)",
+                      "values are observed as text ('s' conversion); names and values contain no NUL byte (C strings)",
+                      "the exhaustive model is bounded (see MC cfg); beyond it coverage is by the seeded histories"]
     return ck.finish()
 
 
@@ -220,6 +415,14 @@ def replay(path):
     exes = build()
     impl = det.get("impl", "c")
     recs, err = vlib.run_driver(exes[impl], script([beh], quiet_prefix=False))
+    if not any("exp" in st for st in beh):
+        events = vlib.merge_trace([beh], recs)
+        ok, matched, _ = vlib.validate_trace("Trace_Config", events, cfg=det.get("trace_cfg", "Trace_Config.cfg"),
+                                             tag="Trace_Config-replay", xss="1g")
+        if not ok:
+            print("VIOLATION property=%s replay=%s  (trace rejected at event %d: %s)" %
+                  (PID, path, matched, json.dumps(events[matched])[:600] if matched < len(events) else "-"))
+        return 0 if ok else 1
     mms = vlib.compare([beh], recs, match)
     for mm in mms:
         print("VIOLATION property=%s replay=%s  (%s: %s)" % (PID, path, signature(mm, impl), mm["why"]))
